@@ -3,6 +3,8 @@
 //   st  <kind> <off> <val> <seed>              store through *p, report the bytes around off and
 //                                              whether any byte elsewhere in committed memory changed
 //   ld  <variant> <kind> <off> <seed> <count|idx> [hexbytes]   load through the named path
+//   sta <kind> <6|2x3> <off> <seed> v0..v5       whole-array store  *p = tainted<T[6]> / tainted<T[2][3]>: the bytes of the guest image
+//   lda <tain|unv> <kind> <6|2x3> <off> <seed> <hexbytes>   whole-array load (tainted<T[..]> x = *p / (*p).UNSAFE_unverified())
 // kinds: the integer kinds, enum, float, double, ptr (cell of type int*; value = target offset, 0 = null)
 #define RLBOX_USE_EXCEPTIONS
 #define RLBOX_SINGLE_THREADED_INVOCATIONS
@@ -95,10 +97,74 @@ static bool with_any_kind(const std::string& k, F&& f)
   return false;
 }
 
+// the bytes [off, off+len) and whether any other committed byte changed
+static std::string observe_range(uint64_t off, uint64_t len, uint64_t seed)
+{
+  auto* b = reinterpret_cast<uint8_t*>(g_base);
+  static const char* hx = "0123456789abcdef";
+  std::string out = "W ";
+  for (uint64_t i = off; i < off + len; i++) { out += hx[b[i] >> 4]; out += hx[b[i] & 15]; }
+  std::string dirty;
+  for (uint64_t i = 0; i < COMMITTED && dirty.empty(); i++) {
+    if (i >= off && i < off + len) continue;
+    if (b[i] != pat(i, seed)) dirty = "DIRTY@" + std::to_string(i);
+  }
+  return out + " outside=" + (dirty.empty() ? "clean" : dirty);
+}
+template<typename T, bool TwoD>
+static std::string whole_array(bool store, const std::string& variant, uint64_t off, uint64_t seed, const toks_t& t, size_t first)
+{
+  using A = std::conditional_t<TwoD, T[2][3], T[6]>;
+  auto p = g_sb->UNSAFE_accept_pointer(reinterpret_cast<A*>(g_base + off));
+  const uint64_t glen = 6 * sizeof(rlbox::tainted_volatile<T, Sbx>);
+  if (store) {
+    tainted<A> x;
+    for (int i = 0; i < 6; i++) {
+      if constexpr (TwoD) x[i / 3][i % 3] = parse_v<T>(t.at(first + i)); else x[i] = parse_v<T>(t.at(first + i));
+    }
+    *p = x;
+    return observe_range(off, glen, seed);
+  }
+  std::string s = "V ";
+  if (variant == "tain") {
+    tainted<A> x = *p;
+    for (int i = 0; i < 6; i++) {
+      if (i) s += ",";
+      if constexpr (TwoD) s += show_v(x[i / 3][i % 3].UNSAFE_unverified()); else s += show_v(x[i].UNSAFE_unverified());
+    }
+  } else {
+    auto u = (*p).UNSAFE_unverified();
+    for (int i = 0; i < 6; i++) {
+      if (i) s += ",";
+      if constexpr (TwoD) s += show_v(u[i / 3][i % 3]); else s += show_v(u[i]);
+    }
+  }
+  return s;
+}
+
 static std::string run_case(const toks_t& t)
 {
   const std::string& op = t.at(0);
   std::string out = "HARNESS-ERROR";
+  if (op.rfind("sta", 0) == 0 || op.rfind("lda", 0) == 0) {
+    bool store = op.rfind("sta", 0) == 0;
+    size_t k0 = store ? 1 : 2;
+    const std::string& kind = t.at(k0);
+    bool twod = t.at(k0 + 1) == "2x3";
+    uint64_t off = parse_u64(t.at(k0 + 2)), seed = parse_u64(t.at(k0 + 3));
+    fill(seed);
+    if (!store) {
+      auto* b = reinterpret_cast<uint8_t*>(g_base);
+      const std::string& h = t.at(k0 + 4);
+      for (size_t i = 0; i + 1 < h.size(); i += 2) b[off + i / 2] = uint8_t(std::stoul(h.substr(i, 2), nullptr, 16));
+    }
+    bool ok = with_any_kind(kind, [&](auto tg) {
+      using T = typename decltype(tg)::type;
+      if constexpr (std::is_same_v<T, wchar_t> || std::is_same_v<T, bool>) { out = "NOCOMPILE"; }
+      else out = twod ? whole_array<T, true>(store, store ? "" : t.at(1), off, seed, t, k0 + 4) : whole_array<T, false>(store, store ? "" : t.at(1), off, seed, t, k0 + 4);
+    });
+    return ok ? out : "HARNESS-ERROR kind";
+  }
   if (op.rfind("st", 0) == 0) {
     const std::string& kind = t.at(1);
     uint64_t off = parse_u64(t.at(2));
